@@ -21,6 +21,11 @@ P = {
  "C15": ("as C02 with both conditional forms at every nesting position; refsem implements the documented rule", "2 C15"),
  "C17": ("escape(s) for every s up to 2 (quick) / 3 (thorough) characters over the meta characters + letter, digit, space, '-', 2/3/4-byte characters, alone and embedded in plain and fancy hosts: reported span equals the first literal occurrence of s on the symbolic text", "2 C17"),
  "C19": ("twin programs: default spelling vs respelling (possessive sugar, named groups and \\k<>, relative backrefs, ^/$ vs \\A/\\z, hex escapes, free-spacing, comments, inline flags) printed from the parsed tree; tree equality checked concretely, behaviour on symbolic text", "2 C19"),
+ "C08": ("the real Matches::next is driven to exhaustion on a placeholder text of the same UTF-8 layout while every search it makes is redirected to the symbolic text (real VM / automaton model): whole yielded sequence vs the reference iteration (refsem leftmost match from the previous end, step after empty match, drop adjacent empty match, \\G via the skipped flag), strictly increasing / non-overlapping, termination within len+4 items, nothing after Err, prefix property under tiny backtrack limits", "2 C08"),
+ "C09": ("real is_match / find / captures / find_from_pos / captures_from_pos / find_iter / captures_iter executed over the symbolic VM on every path and every offset; mutual coherence asserted", "2 C09"),
+ "C10": ("real Split::next / SplitN::next (limits 0..5) over the symbolic VM: pieces equal the substrings between the find_iter matches of the same path plus the tail, contiguous cover of the text, splitn = min(n, pieces) items with the untouched remainder last", "2 C10"),
+ "C11": ("real try_replacen over the symbolic VM, limits 0..3, replacers NoExpand / plain string / closure / <$0>: output equals the model built from the matches of the same path, borrowed iff no match, the three $-free replacers agree, search errors come back as Err", "2 C11"),
+ "C16": ("concretely per pattern: captures_len == 1 + groups == capture_names().count(), names at their indices; on every symbolic path: Captures::len == captures_len, iter() == get(i), get(0) Some, get(i>=len) None, name(n) == get(index) -- for VM-compiled and wrapped patterns", "2 C16"),
  "C20": ("shadow whole-state-copy model (slots, auxiliary stack, alternatives) compared with the real State after every push/pop/save/cut inside the real run, on every feasible operation history the corpus programs generate; counterexample histories are replayed through the cfg-guarded VState wrapper on the real build", "2 C20"),
 }
 
